@@ -1,7 +1,7 @@
 (* Dispatcher of the model area: component tree -- parse, serialise, walk, used time zones
    (C01 C02 C04 C09 C10 C18 C20).  Definitions only. *)
 Require Import Lib.Base Lib.Chain Gen.Gen_parser Gen.Gen_cal Model.Text Model.Params Model.Fold Model.Contentline
-        Model.Dispatch Model.Tree Model.TreeOps Model.UsedTz Model.Api.
+        Model.Dispatch Model.Tree Model.TreeOps Model.UsedTz Model.Api Model.RfcLine.
 From Coq Require Import String.
 Local Open Scope string_scope.
 
@@ -85,8 +85,35 @@ Definition cache_of (j : jv) : option (res unit) := res_of (fun _ => Some tt) j.
 
 Definition jcomps (l : list comp) : jv := JL (map jcomp l).
 
+(* ---- the RFC 5545 content-line syntax tree (Model/RfcLine.v):
+        [name, [[param name, [[0 plain | 1 quoted, text] ...]] ...], value] *)
+Definition pvalue_of (j : jv) : option pvalue :=
+  match j with
+  | JL [JZ q; JS s] => Some (if (q =? 0)%Z then Plain s else Quoted s)
+  | _ => None
+  end.
+Definition rparam_of (j : jv) : option (list N * list pvalue) :=
+  match j with
+  | JL [JS k; JL vs] => option_map (fun vs' => (k, vs')) (opt_all (map pvalue_of vs))
+  | _ => None
+  end.
+Definition rfc_line_of (j : jv) : option rfc_line :=
+  match j with
+  | JL [JS n; JL ps; JS v] =>
+      option_map (fun ps' => {| rl_name := n; rl_params := ps'; rl_value := v |}) (opt_all (map rparam_of ps))
+  | _ => None
+  end.
+
 Definition dispatch_tree (f : list N) (a : jv) : option jv :=
-  if is f "tree_parse" then
+  if is f "rfc_line" then
+    (* [rfc_print; rfc_denote as [name, params, value]; rfc_line_ok; the three clauses of first_parse_guard] *)
+    Some match rfc_line_of a with
+    | Some l =>
+        let '(n, ps, v) := rfc_denote l in
+        JL [JS (rfc_print l); JL [JS n; jparams ps; JS v]; jbool (rfc_line_ok l);
+            jbool (guard_no_escape l); jbool (guard_no_placeholder l); jbool (guard_names_distinct l)]
+    | None => junsupported end
+  else if is f "tree_parse" then
     Some match a with
     | JL [JS text; JZ multiple; JL oracle; JL cacheo] =>
         match opt_all (map oentry_of oracle), opt_all (map cache_of cacheo) with
